@@ -39,6 +39,30 @@ CLAIMED = {
         "note": "Trusted: the stub's reference zero-coder (decides canonicity) and header parser. Known finding: F32 signalling "
                 "NaNs produced by byte damage are quieted on re-encode (known_findings.json).",
     },
+    "C05": {
+        "text": "Seeded search over interleavings of viewer/simulator (un)reliable packets, appended and standalone acks "
+                "(late, repeated, mixing injected and real IDs), endpoint retransmissions, proxy injections either way "
+                "(send / send_reliable), addon drops and take+late re-send, with loss/dup/delay/reorder on all four "
+                "half-links and the virtual clock driving the real resend task. Black-box oracle at the endpoints: ack "
+                "conservation and truthfulness per handled datagram, no ack for proxy-made IDs, exactly one ack back for a "
+                "dropped reliable packet, resend cadence / budget / stop-after-ack, completion future flips exactly in "
+                "the event that processed the ack or fails on budget exhaustion.",
+        "design_ref": "DESIGN.md §4 C05",
+        "note": "Trusted: stub endpoints acknowledge only what they received; cadence judged with one-tick tolerance; "
+                "StartPingCheck rewriting not judged; tracker window at production size.",
+    },
+    "C07": {
+        "text": "1-3 scripted addons loaded through the real AddonManager plus wait_for/subscribe_async subscribers; every "
+                "hook (proxied_packet, lludp_message, rlv_command, lifecycle hooks) gets a seeded behaviour per tagged "
+                "message (falsy/truthy/raise/take now-later-never/drop/send original/mutate/illegal follow-ups). An "
+                "ownership model computed from the addons' own action log decides claimed-or-not; the wire must carry "
+                "the original at most once and exactly once iff unclaimed, one ack per dropped reliable original, one "
+                "datagram per legal copy; illegal ops must raise RuntimeError; dispatch order, exception isolation and "
+                "the proxy's bookkeeping (logging once, main region, session close) are checked per message.",
+        "design_ref": "DESIGN.md §4 C07",
+        "note": "Trusted: the intended first-truthy short-circuit semantics as read from AddonManager; explicit drop after "
+                "take treated as legal.",
+    },
 }
 
 NOT_APPLICABLE = {
